@@ -150,8 +150,9 @@ M = [
      "        || value == '%'\n}", "        || value == '%'\n        || value == '\"'\n}", "R18-1"),
     ("C19", "pop-position-dropped", "xpath/src/eval/mod.rs",
      "        let keep = eval_predicate(predicate, n.clone(), context);\n        context.pop_position();", "        let keep = eval_predicate(predicate, n.clone(), context);", "R19-1"),
-    ("C19", "getter-mutates", "dom/src/lib.rs",
-     "    fn has_child_node(&self) -> bool {\n        !self.children().is_empty()\n    }", "    fn has_child_node(&self) -> bool {\n        !self.children().is_empty()\n    }\n", None),
+    ("C19", "getter-mutates", "info/src/lib.rs",
+     "    fn children(&self) -> OrderedList<Rc<XmlItem>> {\n        let mut items = vec![];\n        for item in self.children.borrow().iter() {\n            items.push(item.clone());\n        }\n        OrderedList::new(items)\n    }\n\n    fn document_element",
+     "    fn children(&self) -> OrderedList<Rc<XmlItem>> {\n        let mut items = vec![];\n        for item in self.children.borrow_mut().drain(..) {\n            items.push(item.clone());\n        }\n        *self.children.borrow_mut() = items.clone();\n        OrderedList::new(items)\n    }\n\n    fn document_element", "R19-2"),
     ("C19", "hashset-iteration-in-union", "xpath/src/eval/mod.rs",
      "    let mut set = HashSet::new();\n    nodes.retain(|v| set.insert(v.order()));\n\n    Ok(nodes.as_value())\n}",
      "    let mut set = HashSet::new();\n    nodes.retain(|v| set.insert(v.order()));\n    let first = set.iter().next().copied().unwrap_or_default();\n    nodes.retain(|v| v.order() != 0 || first != usize::MAX);\n\n    Ok(nodes.as_value())\n}", "R19-3"),
